@@ -135,6 +135,20 @@ def property_checks(inp):
     b2 = itp.binImgs(img, nb)
     A(("bin twice gives the same result", float(numpy.abs(b2 - b).max()), 0.0))
     st = npr.integers(0, 50, size=(3, r * nb, c * nb)).astype(float)
+    # the layout of the image in memory is not part of the image: crops of a larger frame, transposed / column-major images,
+    # every-other-pixel views and per-frame crops of a cube bin like their contiguous copies
+    bigf = npr.integers(0, 50, size=(r * nb + 3, c * nb + 5)).astype(float)
+    crop = bigf[2:2 + r * nb, 1:1 + c * nb]
+    views = [("crop of a larger frame", crop), ("transposed image", npr.integers(0, 50, size=(c * nb, r * nb)).astype(float).T),
+             ("column-major image", numpy.asfortranarray(img)), ("every-other-pixel view", npr.integers(0, 50, size=(2 * r * nb, 2 * c * nb)).astype(float)[::2, ::2])]
+    worst_l = 0.0
+    for nm_, v_ in views:
+        got_ = itp.binImgs(v_, nb); want_ = numpy.ascontiguousarray(v_).reshape(r, nb, c, nb).sum(axis=(1, 3))
+        worst_l = max(worst_l, float(numpy.abs(got_ - want_).max()) if got_.shape == want_.shape else float("inf"))
+    cube = npr.integers(0, 50, size=(3, r * nb + 2, c * nb + 2)).astype(float)[:, 1:-1, 1:-1]
+    gotc = itp.binImgs(cube, nb); wantc_ = numpy.ascontiguousarray(cube).reshape(3, r, nb, c, nb).sum(axis=(2, 4))
+    worst_l = max(worst_l, float(numpy.abs(gotc - wantc_).max()) if gotc.shape == wantc_.shape else float("inf"))
+    A(("bin of a non-contiguous image (crop, transpose, column-major, strided view, cropped cube) = n x n block sums", worst_l, 0.0))
     bs = itp.binImgs(st, nb)
     A(("bin of a stack = per frame", float(numpy.abs(bs - numpy.array([itp.binImgs(f.copy(), nb) for f in st])).max()), 0.0))
     # zoom_rbs
@@ -154,6 +168,15 @@ def property_checks(inp):
     # result[j, i] = f(coordsY[j], coordsX[i]) with f the spline of the array indexed [axis0, axis1]
     want = (zc[:, None] / N) ** px * (zc[None, :] / N) ** py + 0.3 * (zc[:, None] / N) ** py
     A(("zoom exact for polynomials up to the order (order %d)" % order, float(numpy.abs(itp.zoom_rbs(P, (new2, new2), order) - want).max()), 1e-9))
+    # ... also for polynomials with an extremum strictly between grid nodes (a paraboloid about a non-integer vertex): the
+    # spline may exceed the range of the samples there, and must
+    if order >= 2:
+        vx, vy = inp.get("vertex", [N / 2.0 - 0.37, N / 2.0 + 0.21])
+        Pq = ((i[:, None] - vx) / N) ** 2 + 0.7 * ((i[None, :] - vy) / N) ** 2 - 0.05
+        wq = ((zc[:, None] - vx) / N) ** 2 + 0.7 * ((zc[None, :] - vy) / N) ** 2 - 0.05
+        A(("zoom exact for a paraboloid with its vertex between grid nodes (order %d)" % order, float(numpy.abs(itp.zoom_rbs(Pq, (new2, new2), order) - wq).max()), 1e-9))
+        zq = itp.zoom_rbs(Pq + 1j * Pq[::-1], (new2, new2), order)
+        A(("zoom of a complex paraboloid = zoom(real) + i zoom(imag) (order %d)" % order, float(numpy.abs(zq - (wq + 1j * wq[::-1])).max()), 1e-9))
     ac = a + 1j * npr.normal(size=(N, N))
     zcx = itp.zoom_rbs(ac, (new2, new2), order)
     A(("zoom of complex = zoom(real) + i zoom(imag) (order %d)" % order,
@@ -218,7 +241,7 @@ def gen_input(rng):
     return {"n": rng.randint(1, 6), "r": rng.randint(1, 6), "c": rng.randint(1, 6), "N": rng.randint(order + 2, 12), "order": order,
             "kf": rng.randint(1, 3), "px": rng.randint(0, 5), "py": rng.randint(0, 5), "new2": rng.randint(3, 20), "M": rng.randint(4, 20),
             "cst": rng.uniform(0.1, 9), "fraction": rng.uniform(0.05, 0.95), "coff": [rng.randint(-1, 1), rng.randint(-1, 1)],
-            "cgen": [rng.uniform(-1.5, 1.5), rng.uniform(-1.5, 1.5)], "data_seed": rng.getrandbits(32)}
+            "cgen": [rng.uniform(-1.5, 1.5), rng.uniform(-1.5, 1.5)], "vertex": [rng.uniform(1.2, 3.8), rng.uniform(1.2, 3.8)], "data_seed": rng.getrandbits(32)}
 
 
 def falsify(ctx, deep=False):
